@@ -74,7 +74,9 @@ Definition ident_eqb (a b : ident) : bool := (Nat.eqb (length a) (length b)) && 
 
 Record rstate := {
   entries : list (ident * entry);                 (* Repository.crlRepository *)
-  disk : list (ident * (crl * option N)) }.        (* store directories (disk storage only) *)
+  disk : list (ident * (crl * option N));          (* store directories (disk storage only) *)
+  marks : list (ident * crl) }.                    (* Entry.LastUpdateSignature(VerifyFailed): the list whose signature the
+                                                      last refresh of the entry could not verify (in memory only) *)
 
 Fixpoint lookup {A} (id : ident) (l : list (ident * A)) : option A :=
   match l with [] => None | (k, v) :: t => if ident_eqb id k then Some v else lookup id t end.
@@ -83,6 +85,9 @@ Fixpoint update {A} (id : ident) (v : A) (l : list (ident * A)) : list (ident * 
   | [] => [(id, v)]
   | (k, w) :: t => if ident_eqb id k then (k, v) :: t else (k, w) :: update id v t
   end.
+
+Fixpoint remove_id {A} (id : ident) (l : list (ident * A)) : list (ident * A) :=
+  match l with [] => [] | (k, w) :: t => if ident_eqb id k then remove_id id t else (k, w) :: remove_id id t end.
 
 Definition http_locs (c : cert) : ident := map fst (filter snd (c_cdps c)).
 
@@ -109,11 +114,38 @@ Definition persist (cfg : rcfg) (id : ident) (r : option (crl * option N)) (d : 
   end.
 
 (* updateCRL on one entry: first load if not loaded, refresh otherwise *)
+(* did the intake get as far as the signature check and fail there under 'verify'?  (setLastSignatureVerifyFailed) *)
+Definition verify_failed (cfg : rcfg) (a : answer) (avail : list N) (f : fault) : option crl :=
+  let fails l := match r_sigmode cfg with
+                 | SigVerify => if l_parse_ok l && negb (verified l avail) then Some l else None
+                 | _ => None end in
+  match f, a with
+  | NoFault, Serve l => fails l
+  | InsertFails k, Serve l => if (k <? 2 + length (l_serials l))%nat then None else fails l
+  | _, _ => None
+  end.
+
+(* the bookkeeping of updateCrlEntry: a verified update clears the mark, a failed verification sets it;
+   loadCRL (first load) touches neither *)
+Definition marks_after (cfg : rcfg) (ev : env) (f : fault) (id : ident) (e : entry) (avail : list N)
+           (r : option (crl * option N)) (m : list (ident * crl)) : list (ident * crl) :=
+  match r with
+  | Some _ => remove_id id m
+  | None => match e_locs e with
+            | loc :: _ => match verify_failed cfg (ev loc) avail f with Some l => update id l m | None => m end
+            | [] => m
+            end
+  end.
+
 Definition update_one (cfg : rcfg) (ev : env) (f : fault) (st : rstate) (id : ident) (e : entry) : rstate :=
-  let '(e', r) :=
-    if e_loaded e then intake cfg ev Refresh id e (match e_signer e with Some s => [s] | None => [] end) f
-    else intake cfg ev FirstLoad id e (e_chain e) f in
-  {| entries := update id e' (entries st); disk := persist cfg id r (disk st) |}.
+  if e_loaded e then
+    let avail := match e_signer e with Some s => [s] | None => [] end in
+    let '(e', r) := intake cfg ev Refresh id e avail f in
+    {| entries := update id e' (entries st); disk := persist cfg id r (disk st);
+       marks := marks_after cfg ev f id e avail r (marks st) |}
+  else
+    let '(e', r) := intake cfg ev FirstLoad id e (e_chain e) f in
+    {| entries := update id e' (entries st); disk := persist cfg id r (disk st); marks := marks st |}.
 
 Definition refresh_all (cfg : rcfg) (ev : env) (f : fault) (st : rstate) : rstate :=
   fold_left (fun s ide => match lookup (fst ide) (entries s) with
@@ -163,7 +195,7 @@ Definition new_entry (cfg : rcfg) (st : rstate) (id : ident) (c : cert) : entry 
 Definition added_state (cfg : rcfg) (st : rstate) (id : ident) (c : cert) : rstate :=
   match lookup id (entries st) with
   | Some _ => st
-  | None => {| entries := entries st ++ [(id, new_entry cfg st id c)]; disk := disk st |}
+  | None => {| entries := entries st ++ [(id, new_entry cfg st id c)]; disk := disk st; marks := marks st |}
   end.
 
 (* loadActively *)
@@ -172,8 +204,25 @@ Definition loaded_state (cfg : rcfg) (ev : env) (st1 : rstate) (id : ident) (c :
   | Active, Some e =>
     if e_loaded e then st1
     else let '(e', r) := intake cfg ev FirstLoad id e (c_chain c) NoFault in
-         {| entries := update id e' (entries st1); disk := persist cfg id r (disk st1) |}
+         {| entries := update id e' (entries st1); disk := persist cfg id r (disk st1); marks := marks st1 |}
   | _, _ => st1
+  end.
+
+(* tryUpdateSignatureCertFromChain: the last refresh of a loaded entry failed verification; if the chain of this
+   handshake verifies that list, its signer certificate is stored with the entry (and its store) and the mark is
+   cleared — the next refresh can then succeed (key rollover) *)
+Definition resigned_state (cfg : rcfg) (st : rstate) (id : ident) (c : cert) : rstate :=
+  match lookup id (marks st), lookup id (entries st) with
+  | Some l, Some e =>
+    (* a mark is only ever set under 'verify' *)
+    if match r_sigmode cfg with SigVerify => true | _ => false end && e_loaded e && verified l (c_chain c) then
+      let e' := {| e_locs := e_locs e; e_list := e_list e; e_loaded := e_loaded e; e_chain := e_chain e;
+                   e_signer := Some (l_signer l) |} in
+      {| entries := update id e' (entries st);
+         disk := match e_list e with Some l0 => persist cfg id (Some (l0, Some (l_signer l))) (disk st) | None => disk st end;
+         marks := remove_id id (marks st) |}
+    else st
+  | _, _ => st
   end.
 
 (* the state the handshake's own lookup sees *)
@@ -193,7 +242,10 @@ Definition handshake (cfg : rcfg) (ev : env) (st : rstate) (c : cert) : rstate *
     let added := match lookup id (entries st) with Some _ => false | None => true end in
     let st2 := loaded_state cfg ev (added_state cfg st id c) id c in
     let v := is_revoked cfg st2 c in
-    let st3 := match r_fetch cfg with Background => if added then refresh_all cfg ev NoFault st2 else st2 | Active => st2 end in
+    (* AddCRL ends with tryUpdateSignatureCertFromChain; it changes no list and no loaded flag, so the verdict does
+       not depend on it *)
+    let st2' := if added then st2 else resigned_state cfg st2 id c in
+    let st3 := match r_fetch cfg with Background => if added then refresh_all cfg ev NoFault st2' else st2' | Active => st2' end in
     (st3, v)
   end.
 
@@ -213,7 +265,7 @@ Definition configure_one (cfg : rcfg) (ev : env) (trusted : list N) (st : rstate
       if e_loaded e then Some st1
       else let '(e', r) := intake cfg ev FirstLoad id e trusted NoFault in
            match r with
-           | Some _ => Some {| entries := update id e' (entries st1); disk := persist cfg id r (disk st1) |}
+           | Some _ => Some {| entries := update id e' (entries st1); disk := persist cfg id r (disk st1); marks := marks st1 |}
            | None => None
            end
     | _, _ => Some st1
@@ -227,7 +279,7 @@ Definition configure_one (cfg : rcfg) (ev : env) (trusted : list N) (st : rstate
     | Some e =>
       let '(e', r) := intake cfg ev Refresh id e trusted NoFault in
       match r with
-      | Some _ => Some {| entries := update id e' (entries st2); disk := persist cfg id r (disk st2) |}
+      | Some _ => Some {| entries := update id e' (entries st2); disk := persist cfg id r (disk st2); marks := remove_id id (marks st2) |}
       | None => None
       end
     end
@@ -242,7 +294,7 @@ Fixpoint provision (cfg : rcfg) (ev : env) (trusted : list N) (locs : list N) (s
                 end
   end.
 
-Definition restart (cfg : rcfg) (st : rstate) : rstate := {| entries := []; disk := disk st |}.
+Definition restart (cfg : rcfg) (st : rstate) : rstate := {| entries := []; disk := disk st; marks := [] |}.
 
 Inductive rstep := SServe (loc : N) (a : answer) | SHandshake (c : cert) | SRefresh (f : fault) | SRestart.
 
@@ -263,4 +315,4 @@ Fixpoint run_steps (cfg : rcfg) (s : env * rstate) (xs : list rstep) : (env * rs
   | x :: r => let '(s1, o) := rstep_run cfg s x in let '(s2, os) := run_steps cfg s1 r in (s2, o :: os)
   end.
 
-Definition init_state : env * rstate := (fun _ => Down, {| entries := []; disk := [] |}).
+Definition init_state : env * rstate := (fun _ => Down, {| entries := []; disk := []; marks := [] |}).
